@@ -30,6 +30,14 @@ type Container struct {
 	serviceErrorHandleFunc ServiceErrorHandleFunction
 	router                 RouteSelector // default is a CurlyRouter (RouterJSR311 is a slower alternative)
 	contentEncodingEnabled bool          // default is false
+	// handlers registered using Handle ; kept to re-register them when Remove rebuilds the ServeMux
+	plainHandlers []plainHandler
+}
+
+// plainHandler is a http.Handler (already wrapped by Handle) and the ServeMux pattern it is registered for.
+type plainHandler struct {
+	pattern string
+	handler http.Handler
 }
 
 // NewContainer creates a new Container using a new ServeMux and default router (CurlyRouter)
@@ -166,6 +174,10 @@ func (c *Container) Remove(ws *WebService) error {
 			}
 			newServices = append(newServices, each)
 		}
+	}
+	// handlers registered using Handle are not part of any WebService ; keep them
+	for _, each := range c.plainHandlers {
+		newServeMux.Handle(each.pattern, each.handler)
 	}
 	c.webServices, c.ServeMux, c.isRegisteredOnRoot = newServices, newServeMux, newIsRegisteredOnRoot
 	return nil
@@ -364,7 +376,7 @@ func (c *Container) ServeHTTP(httpWriter http.ResponseWriter, httpRequest *http.
 
 // Handle registers the handler for the given pattern. If a handler already exists for pattern, Handle panics.
 func (c *Container) Handle(pattern string, handler http.Handler) {
-	c.ServeMux.Handle(pattern, http.HandlerFunc(func(httpWriter http.ResponseWriter, httpRequest *http.Request) {
+	wrapped := http.HandlerFunc(func(httpWriter http.ResponseWriter, httpRequest *http.Request) {
 		// Skip, if httpWriter is already an CompressingResponseWriter
 		if _, ok := httpWriter.(*CompressingResponseWriter); ok {
 			handler.ServeHTTP(httpWriter, httpRequest)
@@ -394,7 +406,11 @@ func (c *Container) Handle(pattern string, handler http.Handler) {
 		}
 
 		handler.ServeHTTP(writer, httpRequest)
-	}))
+	})
+	c.webServicesLock.Lock()
+	defer c.webServicesLock.Unlock()
+	c.ServeMux.Handle(pattern, wrapped)
+	c.plainHandlers = append(c.plainHandlers, plainHandler{pattern, wrapped})
 }
 
 // HandleWithFilter registers the handler for the given pattern.
